@@ -461,6 +461,13 @@ static void be_case(Toks& tk, Out& out, std::size_t ncells, std::size_t nspec)
   out.s += ' ';
   // ---- oracle: every iteration is a Newton iteration on y - yn - H f(y) with matrix I/H - J ----
   const std::size_t n = nspec;
+  bool tame = true;
+  for (const auto& e : sh->events)
+    for (double x : e.a)
+      if (!(std::fabs(x) < 1.0e9))
+        tame = false;
+  if (!tame)
+    out.tok("NOTE_ORACLE_ARITHMETIC_SKIPPED_LARGE_VALUES");
   std::size_t nF = 0, nL = 0, nS = 0;
   std::vector<double> cur_y;
   for (std::size_t k = 0; k < sh->events.size(); ++k)
@@ -482,9 +489,13 @@ static void be_case(Toks& tk, Out& out, std::size_t ncells, std::size_t nspec)
       for (std::size_t c = 0; c < ncells; ++c)
         for (std::size_t i = 0; i < n; ++i)
           for (std::size_t j = 0; j < n; ++j)
-            if (M[c * n * n + i * n + j] != -(sh->P[i * n + j] + (i == j ? cur_y[c * n + i] / 4.0 : 0.0)) + (i == j ? alpha : 0.0))
+          {
+            double expect = -(sh->P[i * n + j] + (i == j ? cur_y[c * n + i] / 4.0 : 0.0)) + (i == j ? alpha : 0.0);
+            double got = M[c * n * n + i * n + j];
+            if (std::fabs(got - expect) > 1e-9 * std::max({ 1.0, std::fabs(got), std::fabs(expect), std::fabs(alpha) }))
               ok = false;
-      if (!ok)
+          }
+      if (!ok && tame)
         out.tok("ORACLE_BE_MATRIX_NOT_I_OVER_H_MINUS_J");
       // the residual handed to the solver uses the same H: rhs = f(y) - (y - yn)/H ; yn unknown to the
       // harness only through the trace, so the check is on the first iteration of a step (y == yn): rhs == f(y)
